@@ -185,7 +185,12 @@ func (g *gen) block(depth, max int) string {
 func (g *gen) stmt(depth int) string {
 	d := depth - 1
 	if depth <= 0 {
-		switch g.r.Intn(6) {
+		switch g.r.Intn(7) {
+		case 6:
+			// statements that begin with a token which can also begin a type: after a "..." line they must not turn
+			// the elision into a variadic parameter
+			return g.pick("<-done\n", "*p = "+g.expr(0)+"\n", "func() { use("+g.ident()+") }()\n", "[]int{1, 2}[0]++\n",
+				"map[string]int{}[\"k\"]++\n", "(*p).x++\n", "<-time.After(1)\n")
 		case 0:
 			return g.ident() + " := " + g.expr(1) + "\n"
 		case 1:
